@@ -26,7 +26,8 @@ Record oview := {
   ov_method : string; ov_scheme : string; ov_host : string; ov_rawpath : string; ov_query : string;
   ov_ips : list string;
   ov_hdrs : list (string * string);   (* the complete Headers() map: key, values joined by "," *)
-  ov_ok : bool                        (* Path = PathUnescape(RawPath), URL.String() fits, Header(n) = Headers()[n] *)
+  ov_probes : list (string * string); (* Header(n) for the seven names (asked in assorted casings), where not empty *)
+  ov_ok : bool                        (* Path = PathUnescape(RawPath) and URL.String() is made of the components shown *)
 }.
 
 Record oup := { ou_method : string; ou_hdrs : list (string * list string) }.
@@ -43,7 +44,8 @@ Record case := {
   k_req : reqline;
   k_raw : raw_hdrs;
   k_parsed : hdrs;                                          (* net/http's parse of the header lines *)
-  k_uri : option (string * string);
+  k_uri : option (string * string * string);                (* url.Parse of the X-Forwarded-Uri value: EscapedPath(),
+                                                               Query().Encode(), RawQuery *)
   k_obs : obs
 }.
 
@@ -53,11 +55,14 @@ Definition o_parse_ip (c : case) : string -> ip := tbl_ip (k_net c).
 Definition o_parse_cidr (c : case) : string -> option (ip * list N) := tbl_cidr (k_net c).
 Definition o_split (c : case) : string -> option string := one_split (r_remote (k_req c)) (k_split c).
 (** url.Parse was asked about exactly one string: the first X-Forwarded-Uri value *)
-Definition o_parse_uri (c : case) : string -> option (string * string) :=
+Definition o_parse_uri3 (c : case) : string -> option (string * string * string) :=
   fun s => match hdr_ci XFU (k_raw c) with
            | Some v => if String.eqb s v then k_uri c else None
            | None => None
            end.
+(** extractURL takes the re-encoded query *)
+Definition o_parse_uri (c : case) : string -> option (string * string) :=
+  fun s => option_map (fun t => (fst (fst t), snd (fst t))) (o_parse_uri3 c s).
 
 (** the well-formedness the theorems assume of the net package's answers ([net_ok], by
     [Request.table_net_ok]), checked on the answers of the case; and every string the model asks about
@@ -135,6 +140,12 @@ Definition up_projection (uh : hdrs) : list (string * list string) :=
                             then map canon_list (snd nvs) else snd nvs))
       (fwd_projection uh).
 
+Definition pair_eqb (a b : string * string) : bool := String.eqb (fst a) (fst b) && String.eqb (snd a) (snd b).
+
+(** Header(n) for the seven names: the values of the name joined by "," *)
+Definition fwd_visible (h : hdrs) : list (string * string) :=
+  flat_map (fun n => if has n h && nonempty (join "," (values n h)) then [(n, join "," (values n h))] else []) untrusted_header.
+
 Definition pairl_eqb (a b : string * list string) : bool :=
   String.eqb (fst a) (fst b) && list_eqb String.eqb (snd a) (snd b).
 
@@ -142,7 +153,8 @@ Definition view_corr (v : view) (host : string) (ov : oview) : bool :=
   String.eqb (ov_method ov) (v_method v) && String.eqb (ov_scheme ov) (v_scheme v) &&
   String.eqb (ov_host ov) (v_host v) && String.eqb (ov_rawpath ov) (v_rawpath v) &&
   String.eqb (ov_query ov) (v_query v) && list_eqb String.eqb (ov_ips ov) (v_ips v) &&
-  visible_ok host (v_hdrs v) (ov_hdrs ov) && ov_ok ov.
+  visible_ok host (v_hdrs v) (ov_hdrs ov) &&
+  list_eqb pair_eqb (ov_probes ov) (fwd_visible (v_hdrs v)) && ov_ok ov.
 
 Definition corr (impl_fixed : bool) (c : case) : bool :=
   let s := handle (o_parse_uri c) (o_parse_ip c) (o_parse_cidr c) (o_split c) impl_fixed
@@ -195,7 +207,7 @@ Definition prop_untrusted (c : case) : bool :=
     String.eqb (ov_host ov) (r_host r) && String.eqb (ov_rawpath ov) (r_escpath r) &&
     String.eqb (ov_query ov) (r_rawquery r) &&
     list_eqb String.eqb (ov_ips ov) [peer_host (o_split c) (r_remote r)] &&
-    forallb (fun kv => negb (is_forwarded_ci (fst kv))) (ov_hdrs ov)
+    forallb (fun kv => negb (is_forwarded_ci (fst kv))) (ov_hdrs ov) && is_nil (ov_probes ov)
   | None => true
   end &&
   is_nil (o_leaks o) && is_nil (o_pair o).
@@ -226,12 +238,14 @@ Definition prop_trusted (c : case) : bool :=
   let raw := k_raw c in
   match o_view (k_obs c) with
   | Some ov =>
-    let uri := match hdr_ci XFU raw with Some v => if nonempty v then o_parse_uri c v else None | None => None end in
+    let uri := match hdr_ci XFU raw with Some v => if nonempty v then o_parse_uri3 c v else None | None => None end in
     String.eqb (ov_method ov) (override (hdr_ci XFM raw) (r_method r)) &&
     String.eqb (ov_scheme ov) (override (hdr_ci XFP raw) (scheme_ofb r)) &&
     String.eqb (ov_host ov) (override (hdr_ci XFH raw) (r_host r)) &&
-    String.eqb (ov_rawpath ov) (override (option_map fst uri) (r_escpath r)) &&
-    String.eqb (ov_query ov) (override (option_map snd uri) (r_rawquery r)) &&
+    String.eqb (ov_rawpath ov) (override (option_map (fun t => fst (fst t)) uri) (r_escpath r)) &&
+    (* the query of the header, re-encoded or as written: the property does not say which *)
+    (String.eqb (ov_query ov) (override (option_map (fun t => snd (fst t)) uri) (r_rawquery r)) ||
+     String.eqb (ov_query ov) (override (option_map snd uri) (r_rawquery r))) &&
     match rev (ov_ips ov) with
     | last :: front => String.eqb last (peer_host (o_split c) (r_remote r)) && announced_b raw (rev front)
     | [] => false
@@ -482,8 +496,9 @@ Definition q220 : string := "log".
 (* short constructors for the generated case files *)
 Definition rq p t m h e q := {| r_remote := p; r_tls := t; r_method := m; r_host := h; r_escpath := e; r_rawquery := q |}.
 Definition cf d p := {| cfg_decision := d; cfg_proxy := p |}.
-Definition vw m s h p q i hs ok :=
-  {| ov_method := m; ov_scheme := s; ov_host := h; ov_rawpath := p; ov_query := q; ov_ips := i; ov_hdrs := hs; ov_ok := ok |}.
+Definition vw m s h p q i hs pr ok :=
+  {| ov_method := m; ov_scheme := s; ov_host := h; ov_rawpath := p; ov_query := q; ov_ips := i; ov_hdrs := hs;
+     ov_probes := pr; ov_ok := ok |}.
 Definition upv m hs := {| ou_method := m; ou_hdrs := hs |}.
 Definition ob s r v u l p := {| o_status := s; o_rule := r; o_view := v; o_up := u; o_leaks := l; o_pair := p |}.
 Definition cs m cfg ld net sp r raw parsed u o :=
